@@ -80,13 +80,14 @@ def module_funcs(ctx, rel, cls=None, exclude=()):
 
 
 class Sem:
-    def __init__(self, ctx, fn, cond=None, pinned=None, call=None, binop=None, env=None, run=True, subscript=None, inline=None, erase_T=False):
+    def __init__(self, ctx, fn, cond=None, pinned=None, call=None, binop=None, env=None, run=True, subscript=None, inline=None, erase_T=False, loop_once=False):
         self.ctx = ctx
         self.fn = fn
         self.ev = AutoEvaluator(fn, src=ctx.src, cond=cond, pinned=pinned, call=call, binop=binop, env=env, subscript=subscript)
         if inline:
             self.ev.inline = {k: v for k, v in inline.items() if v is not fn}
         self.ev.erase_T = erase_T
+        self.ev.loop_once = loop_once
         if run:
             body = fn.body
             self.ev.run(body)
@@ -138,3 +139,39 @@ def and_binop(node, a, b, ev):
         x, y = (a, b) if ka <= kb else (b, a)
         return F.fn("mask:" + type(node.op).__name__, need(x), need(y))
     return NotImplemented
+
+
+def enumerate_paths(ctx, fn, fixed=None, limit=64, **kw):
+    """Evaluate `fn` once per syntactic path through its `if` tests (no feasibility reasoning, no solver): `fixed(test, ev)` may decide a test
+    (True / False) - every other test is taken both ways.  Yields (decisions, Sem) with decisions = [(test node, bool), ...] in the order met.
+    Used by rules of the form "on EVERY path ...": a flag the rule knows nothing about is simply explored both ways."""
+    work = [[]]
+    n = 0
+    while work:
+        prefix = work.pop()
+        n += 1
+        if n > limit:
+            raise Unsupported(f"more than {limit} paths through {fn.name}")
+        taken = []
+        cache = {}
+
+        def cond(test, ev, prefix=prefix, taken=taken, cache=cache):
+            if fixed is not None:
+                r = fixed(test, ev)
+                if r is not None:
+                    return r
+            k = id(test)
+            if k in cache:
+                return cache[k]
+            i = len(taken)
+            if i < len(prefix):
+                v = prefix[i]
+            else:
+                v = True
+                work.append([d for _, d in taken] + [False])
+            taken.append((test, v))
+            cache[k] = v
+            return v
+
+        S = Sem(ctx, fn, cond=cond, **kw)
+        yield list(taken), S
